@@ -584,20 +584,18 @@ func (s *CommitStateDB) ForEachStorage(addr ethcmn.Address, cb func(key, value e
 		return nil
 	}
 
-	prefixStore := evm.AddressStoragePrefix(so.Address())
+	prefixStore := so.storagePrefix()
 	s.contractStore.Iterate(prefixStore, func(keyD []byte, valueD []byte) bool {
 		key := ethcmn.BytesToHash(keyD)
 		value := ethcmn.BytesToHash(valueD)
-
 		if idx, dirty := so.keyToDirtyStorageIndex[key]; dirty {
-			// check if iteration stops
-			if cb(key, ethcmn.HexToHash(so.dirtyStorage[idx].Value)) {
-				return true
-			}
-		} else if cb(key, value) {
-			return true
+			value = ethcmn.HexToHash(so.dirtyStorage[idx].Value)
+		} else if len(valueD) == 0 {
+			// deleted earlier in this block
+			return false
 		}
-		return false
+		// go-ethereum's contract: the callback returns false to stop
+		return !cb(key, value)
 	})
 	return nil
 }
